@@ -40,7 +40,7 @@ Proof.
   cbv zeta.
   destruct Hc as [C1 [C2 [C3 C4]]].
   destruct ((negb waited || has (c_tflag c) TF_PRIORITY && check_wait_priority s1 k c) && do_lock s1 k r) eqn:Eadm.
-  - (* admitted *)
+  - (* accepted *)
     apply andb_true_iff in Eadm. destruct Eadm as [_ Edl]. unfold do_lock in Edl. apply do_lock_rule_bound in Edl.
     rewrite (getm_some _ _ _ Hm1) in Edl.
     assert (Hwk : forall w, (if m_waited (getm s1 k) then Some (mkWake k (Some conn)) else None) = Some w -> w_key w = k).
